@@ -199,6 +199,14 @@ def run(ctx) -> None:
                 for fld in ("wk", "bk_grid"):
                     sl, _, _ = mdu.backward_slice(kw[fld], mdu.node_of_expr(ctor[0]))
                     okf = okf and any(e is w[0] or (isinstance(e, ast.Call) and call_name(e).endswith(("find_bk_vectors", "get_shell_weights"))) for e in sl)
+            kg_ = kw.get("kpt_grid") if okf else None
+            if kg_ is not None:
+                kgr_ = MS.resolve(kg_, mdu.node_of_expr(ctor[0]))
+                folded_ = [b_ for b_ in ast.walk(kgr_) if isinstance(b_, ast.BinOp) and isinstance(b_.op, ast.Mod)] + \
+                    [c_ for c_ in ast.walk(kgr_) if isinstance(c_, ast.Call) and call_name(c_) in ("np.mod", "np.remainder", "np.fmod")]
+                r1.check(not folded_, f"{mname}: the stored integer k-coordinates are the ones the neighbour search used (not folded into the first cell)", m, ctor[0],
+                         f"{mname} stores `kpt_grid = {norm1(kgr_, 90)}`, folded modulo the mesh, while G and the neighbour list were computed from the unfolded "
+                         f"coordinates: for k-points given outside [0,1) the stored triple no longer satisfies k + b = k' + G")
             r1.check(okf, f"{mname}: weights and b-vectors of the object come from the checked solver", m, ctor[0] if ctor else m.node,
                      f"{mname} builds the BKVectors object from weights/vectors that did not pass get_shell_weights")
             # …and the *whole* checked set: completeness Σ_b w_b b bᵀ = 1 holds for the set the solver returned, not for a subset selected afterwards
